@@ -87,3 +87,14 @@ func VerifDurClearRow(h *Holder, index, field, view string, shard, rowID uint64)
 	}
 	return frag.clearRow(rowID)
 }
+
+// VerifDurClearBits clears the given (row, column) pairs of the open fragment
+// "index/field/view/shard" through the op log (fragment.bulkImport with Clear: one
+// remove-batch entry, no snapshot).
+func VerifDurClearBits(h *Holder, index, field, view string, shard uint64, rowIDs, columnIDs []uint64) error {
+	frag := h.fragment(index, field, view, shard)
+	if frag == nil {
+		return fmt.Errorf("no fragment %s/%s/%s/%d", index, field, view, shard)
+	}
+	return frag.bulkImport(rowIDs, columnIDs, &ImportOptions{Clear: true})
+}
